@@ -150,7 +150,10 @@ def sendStep (kid : Kid) (c : Caller) : Kid × Caller :=
       else (kid', { c with pc := .done .sendErr })
     else (kid, { c with pc := .done .sendErr })
   | .killWait =>
-    ({ kid with ports := { kid.ports with signal := false } },
+    -- an accepted kill is the base step `Tid.kill`: before `post_stop` it turns a graceful exit into a
+    -- killed one
+    ({ kid with g := if kid.signalOpen then step kid.g .kill else kid.g,
+                ports := { kid.ports with signal := false } },
      { c with pc := .waiting, accepted := kid.signalOpen })
   | .drainWait =>
     let g' := step kid.g (.d c.d)
@@ -200,7 +203,9 @@ def xstep (x : X) : XTid → X
   | .kill k =>
     match x.kids[k]? with
     | none => x
-    | some kid => { x with kids := x.kids.set k { kid with ports := { kid.ports with signal := false } } }
+    | some kid =>
+      { x with kids := x.kids.set k { kid with g := if kid.signalOpen then step kid.g .kill else kid.g,
+                                               ports := { kid.ports with signal := false } } }
   | .mark k =>
     match x.kids[k]? with
     | none => x
